@@ -776,8 +776,9 @@ def seq_check(prop, tier, seed, t0, spec=None):
     if spec.get("extra_check"):
         extra_viols, extra_cov = spec["extra_check"](spec, scripts, real, variant, tier)
     sv, scov = stretch_probe(ops, kinds, variant, tier)
-    extra_viols = list(extra_viols) + sv
-    extra_cov = dict(extra_cov, **scov)
+    wv, wcov = width_audit(ops)
+    extra_viols = list(extra_viols) + sv + wv
+    extra_cov = dict(extra_cov, **scov, **wcov)
 
     mismatches = []
     viol_scripts = []
@@ -988,6 +989,31 @@ def replay_pipeline(prop, path, payload):
 
 
 BIG = ["18446744073709551615", "18446744073709551614", "9223372036854775808", "9223372036854775807", "4294967296"]
+
+
+WIDTH_RE = re.compile(r"Atomic(U8|U16|U32|I8|I16|I32)\b|\bas\s+(u8|u16|u32|i8|i16|i32)\b|\b(u8|u16|u32|i8|i16|i32)::")
+
+
+def width_audit(ops):
+    """A premise of the model, checked on the source: the counters of the operators are `usize` (the model counts in
+    unbounded naturals; a `usize` counter needs 2^64 events to wrap, a narrower one can be reached - seeded z07 needs
+    2^32 data, beyond any history that is run).  No atomic integer narrower than 64 bits, no cast or conversion to such
+    a type may appear in the source file of a component the property is anchored in (arithmetic on `usize` itself -
+    `wrapping_add` included - is what `fetch_add` does anyway and is not flagged)."""
+    hits = []
+    for op in sorted(set(ops)):
+        path = "%s/src/%s.rs" % (REPO, op)
+        if not os.path.exists(path):
+            continue
+        for n, line in enumerate(open(path), 1):
+            code = line.split("//")[0]
+            if WIDTH_RE.search(code):
+                hits.append(("op=%s (source audit)" % op, "integer-width:nfi",
+                             dict(what="the model counts in unbounded naturals; this line narrows a number to fewer than 64 bits, "
+                                       " so the theorems about this component no longer speak about the code",
+                                  file="src/%s.rs" % op, line=n, text=line.strip())))
+                break
+    return hits, dict(integer_width_audit=dict(files=len(set(ops)), narrowing_sites=len(hits)))
 
 
 def _groups(trace):
